@@ -1,6 +1,20 @@
 import BitcaskVerif.Props.C06
+import BitcaskVerif.Props.C06Bytes
 #print axioms Resp.c06_cmd_roundtrip
 #print axioms Resp.c06_replies
 #print axioms Resp.c06_get_exact
 #print axioms Resp.c06_del_duplicate
 #print axioms Resp.c06_del_absent_present
+-- byte-level statements (Props/C06Bytes.lean)
+#print axioms Resp.c06_bytes_fits_iff
+#print axioms Resp.c06_bytes_reqWire
+#print axioms Resp.c06_bytes
+#print axioms Resp.c06_bytes_enc
+#print axioms Resp.c06_bytes_replies_enc
+#print axioms Resp.c06_bytes_segmentation_irrelevant
+#print axioms Resp.c06_bytes_bytewise_whole_perreq
+#print axioms Resp.c06_bytes_prefix_frame
+#print axioms Resp.c06_bytes_prefix
+#print axioms Resp.c06_bytes_prefix_of_run
+#print axioms Resp.c06_bytes_cut
+#print axioms Resp.c06_bytes_then_anything
